@@ -1,0 +1,66 @@
+//go:build verif
+
+package ecs
+
+// Contracts for unsafe.go: entity dump / load (C17, C02).
+//
+// The query machinery used by DumpEntities is not verified here: the contracts below only
+// record (as trusted facts) that creating, counting and advancing a query does not touch the
+// entity pool. The dump/load obligations are about the pool state itself.
+
+//@ spec func poolSame(s *storage, ents []Entity, next entityID, avail uint32) bool :=
+//@      __same(s.entityPool.entities, ents) && s.entityPool.next == next && s.entityPool.available == avail
+
+//@ func NewFilter0
+//@   serves C17
+//@   trusted
+//@   ensures keeps: __same(world.storage.entityPool.entities, old(world.storage.entityPool.entities)) && world.storage.entityPool.next == old(world.storage.entityPool.next) && world.storage.entityPool.available == old(world.storage.entityPool.available)
+//@   ensures elems: forall i int :: 0 <= i && i < len(world.storage.entityPool.entities) ==> world.storage.entityPool.entities[i] == old(world.storage.entityPool.entities[i])
+//@   ensures world: result != nil && result.world == world
+
+//@ func (*Filter0).Query
+//@   serves C17
+//@   trusted
+//@   requires f.world != nil
+//@   ensures keeps: __same(f.world.storage.entityPool.entities, old(f.world.storage.entityPool.entities)) && f.world.storage.entityPool.next == old(f.world.storage.entityPool.next) && f.world.storage.entityPool.available == old(f.world.storage.entityPool.available)
+//@   ensures elems: forall i int :: 0 <= i && i < len(f.world.storage.entityPool.entities) ==> f.world.storage.entityPool.entities[i] == old(f.world.storage.entityPool.entities[i])
+//@   ensures world: f.world == old(f.world) && result.world == f.world
+
+//@ func (*Query0).Count
+//@   serves C17
+//@   trusted
+//@   requires q.world != nil
+//@   ensures keeps: __same(q.world.storage.entityPool.entities, old(q.world.storage.entityPool.entities)) && q.world.storage.entityPool.next == old(q.world.storage.entityPool.next) && q.world.storage.entityPool.available == old(q.world.storage.entityPool.available)
+//@   ensures elems: forall i int :: 0 <= i && i < len(q.world.storage.entityPool.entities) ==> q.world.storage.entityPool.entities[i] == old(q.world.storage.entityPool.entities[i])
+//@   ensures world: q.world == old(q.world) && result >= 0 && result < 1<<32
+
+//@ func (*Query0).Next
+//@   serves C17
+//@   trusted
+//@   requires q.world != nil
+//@   ensures keeps: __same(q.world.storage.entityPool.entities, old(q.world.storage.entityPool.entities)) && q.world.storage.entityPool.next == old(q.world.storage.entityPool.next) && q.world.storage.entityPool.available == old(q.world.storage.entityPool.available)
+//@   ensures elems: forall i int :: 0 <= i && i < len(q.world.storage.entityPool.entities) ==> q.world.storage.entityPool.entities[i] == old(q.world.storage.entityPool.entities[i])
+//@   ensures world: q.world == old(q.world)
+
+//@ func (*Query0).Entity
+//@   serves C17
+//@   trusted
+//@   requires q.world != nil
+//@   ensures keeps: __same(q.world.storage.entityPool.entities, old(q.world.storage.entityPool.entities)) && q.world.storage.entityPool.next == old(q.world.storage.entityPool.next) && q.world.storage.entityPool.available == old(q.world.storage.entityPool.available)
+//@   ensures elems: forall i int :: 0 <= i && i < len(q.world.storage.entityPool.entities) ==> q.world.storage.entityPool.entities[i] == old(q.world.storage.entityPool.entities[i])
+//@   ensures world: q.world == old(q.world)
+
+//@ func (Unsafe).DumpEntities
+//@   serves C17 C02
+//@   requires u.world != nil
+//@   loop 1 invariant pool: query.world == u.world && u.world != nil && __same(u.world.storage.entityPool.entities, old(u.world.storage.entityPool.entities)) && u.world.storage.entityPool.next == old(u.world.storage.entityPool.next) && u.world.storage.entityPool.available == old(u.world.storage.entityPool.available)
+//@   ensures  fresh: len(u.world.storage.entityPool.entities) > 0 ==> __fresh(result.Entities)
+//@   ensures  copy: len(result.Entities) == len(u.world.storage.entityPool.entities)
+//@   ensures  scalars: result.Next == uint32(u.world.storage.entityPool.next) && result.Available == u.world.storage.entityPool.available
+
+//@ func (Unsafe).LoadEntities
+//@   serves C17 C02
+//@   requires u.world != nil && data != nil
+//@   ensures  fresh: len(data.Entities) > 0 ==> __fresh(u.world.storage.entityPool.entities)
+//@   ensures  pool: len(data.Entities) > 0 ==> len(u.world.storage.entityPool.entities) == len(data.Entities) && uint32(u.world.storage.entityPool.next) == data.Next && u.world.storage.entityPool.available == data.Available
+//@   ensures  index: len(u.world.storage.entities) == len(data.Entities) && len(u.world.storage.isTarget) == len(data.Entities)
